@@ -88,3 +88,9 @@ ENTRIES += [
     B('content-disposition-empty-group', "    match = re.search(r'filename\\s*=\\s*(.+)', text, re.IGNORECASE)", "    match = re.search(r'filename\\s*=\\s*(.*)', text, re.IGNORECASE)", 'C09-D1', PA),
     N('windows-trailing-char-percent-format', "            new_filename = '{0}%{1:02X}'.format(\n                new_filename[:-1], ord(new_filename[-1])\n            )", "            new_filename = new_filename[:-1] + '%%%02X' % ord(new_filename[-1])", PA),
 ]
+
+ENTRIES += [
+    B('regress-symlink-unhandled', "            try:\n                os.symlink(link_target, symlink_path)\n            except OSError as error:\n                # The name comes from the listing: listed twice, already\n                # there from an earlier run, or naming a missing directory.\n                _logger.warning(\n                    _('Could not create symbolic link {symlink_path}: {error}'),\n                    symlink_path=symlink_path, error=error\n                )\n                return\n",
+      "            os.symlink(link_target, symlink_path)\n", 'C09-D1', 'wpull/processor/ftp.py'),
+    B('symlink-handler-too-narrow', "            except OSError as error:\n                # The name comes from the listing", "            except FileExistsError as error:\n                # The name comes from the listing", 'C09-D1', 'wpull/processor/ftp.py'),
+]
